@@ -47,6 +47,11 @@ Native(t, o) ==
 Visible(recs) == SelectSeq(recs, LAMBDA r : rec \/ Len(r.p) <= 1)
 IsPair(o) == o.op = "rename" /\ Parent(o.src) = Parent(o.dst)
 
+\* the history universe, printed once so that checks/c20.py can compare it with its own enumeration of the same
+\* vocabulary: per start tree <<number of entries, enabled operations, histories of two operations>>
+Hist2(t) == UNION {{<<o1, o2>> : o2 \in Ops(ApplyOp(t, o1))} : o1 \in Ops(t)}
+ASSUME PrintT(<<"UNIVERSE", {<<Cardinality(AsSet(t)), Cardinality(Ops(t)), Cardinality(Hist2(t))>> : t \in StartTrees}>>)
+
 Quiet == pend = <<>> /\ batch = <<>>
 NoLop == [op |-> "none"]
 Init == /\ start \in StartTrees /\ rec \in BOOLEAN /\ fs = start /\ nops = 0 /\ pend = <<>> /\ batch = <<>>
